@@ -415,3 +415,53 @@ def run_C09(ctx):
                           min_cases=1000, timeout=7200, transform=to_pjson)
     add_m3(ctx, "pjson", "random", "pjson", 3000 if q else 60000)
     return vlib.finish(ctx, confirm_all)
+
+
+# ====================================================================== C13 value / entity JSON
+
+vlib.TRACE_PREP["Trace_ValueJson"] = trace_tables
+vlib.TRACE_CFG["Trace_ValueJson"] = TEXT_CFG
+
+
+def describe_vjson(ev, obs, entry):
+    o = obs if isinstance(obs, dict) else {}
+    kind = ev.get("kind")
+    d = ev.get("datum")
+    if kind == "value":
+        what = pretty.sv(d)
+    elif kind == "entity":
+        what = "entity %s parents %s attrs %s tags %s" % (pretty.sv(d["uid"]), [pretty.sv(p) for p in d.get("parents") or []],
+                                                        {k: pretty.sv(v) for k, v in (d.get("attrs") or {}).items()} if isinstance(d.get("attrs"), dict) else {},
+                                                        [(cps(t[0]), pretty.sv(t[1])) for t in d.get("tags") or []])
+    elif kind == "entities":
+        what = "entity map of %d entities %s" % (len(d or []), [pretty.sv(e["uid"]) for e in d or []][:6])
+    else:
+        what = "request " + " ".join("%s=%s" % (k, pretty.sv(d[k])) for k in ("p", "a", "r", "c"))
+    back = o.get("back") or {}
+    b = ("error `%s`" % back.get("err")) if not back.get("ok") else (pretty.sv(back["v"]) if kind == "value" else "a %s" % kind)
+    return "value-json %s %s => %s; decoder returned %s" % (kind, what[:700], "; ".join(entry.get("why") or ["?"]), b[:300])
+
+
+KINDS["vjson"] = dict(module="Trace_ValueJson", shrink=None, describe=describe_vjson)
+
+
+@prop("C13")
+def run_C13(ctx):
+    ctx.rule = ("spec/ValueJson.tla reads the JSON form of values, entities, entity maps and requests itself (documents handed to TLC in a "
+                "tagged form: strings as code points, integers as limb numbers, object members in document order): booleans, 64-bit "
+                "integers, strings, arrays = sets, objects = records, the escapes __entity / __extn (fn one of ip / decimal / datetime / "
+                "duration, arg read by the literal syntaxes of TextForms), entity references implicit or explicit where the format allows "
+                "both; the decoder's fallback (a malformed escape payload is a record) is named and followed. Recorded round trips "
+                "(Trace_ValueJson): values nested to depth 3 over the 64-bit boundaries, every extension type at its boundaries, strings "
+                "/ keys / ids over the Unicode classes and the characters JSON escapes, records that look like implicit forms or carry "
+                "the escape words; entities with 0-3 parents / attributes / tags; entity maps of 0-5 entities; requests. For each: the "
+                "specification's reading of the RECORDED encoding = the datum; the real decoder's result = the datum; the decoder's "
+                "re-encoding repeats the bytes; alternative spellings (entity references flipped explicit <-> implicit in uid / parents / "
+                "request positions; bare string, {fn,arg} and __extn for typed extension decoders; both EntityUID spellings) are the same "
+                "datum per the specification and per the real decoder. distinct = distinct data.")
+    ctx.assumptions = ["schema-guided coercion (UnmarshalJSONWithSchema) is exercised under C15/C16's schemas, not here",
+                       "Decision / Diagnostic round trips are not modelled (fixed-shape structs without value dispatch)",
+                       "names are related to their characters by spelling tables computed by harness and checker"]
+    q = ctx.quick
+    add_m3(ctx, "vjson", "roundtrips", "vjson", 6000 if q else 200000)
+    return vlib.finish(ctx, confirm_all)
